@@ -93,7 +93,7 @@ func checkC19(r *core.Run) {
 	}, 1)
 
 	faultOrg := "node/keeper.Keeper.GetFaultBySpAndShardId(" + fault + ".Provider," + fault + ".ShardId)"
-	evalStoreConst(r, "G-selfrec", "sao/keeper.msgServer.RecoverFaults", "*complit.Status", constVal(r, "node/types", "FaultStatusRecovering"), []clause{
+	evalStoreConst(r, "G-selfrec", "sao/keeper.msgServer.RecoverFaults", "type:node/types.Fault.Status", constVal(r, "node/types", "FaultStatusRecovering"), []clause{
 		cl("signer-is-the-named-provider", guard.Eq(msg+".Provider", msg+".Creator")),
 		cl("fault-is-recorded-against-the-signer", guard.Eq(faultOrg+"#0.Provider", msg+".Creator")),
 		cl("fault-exists", guard.True(faultOrg+"#1")),
